@@ -162,6 +162,10 @@ func vfGSParams(name string) GossipSubParams {
 	case "d5out2":
 		// an outbound quota of two: the cut from Dhi to D has to repair a selection that holds one outbound member
 		p.D, p.Dlo, p.Dhi, p.Dscore, p.Dout = 6, 3, 7, 1, 2
+	case "d2hg":
+		// the history LENGTH left at the package default, only the gossip window changed (to one heartbeat)
+		p.D, p.Dlo, p.Dhi, p.Dscore, p.Dout = 2, 1, 3, 1, 0
+		p.HistoryLength, p.HistoryGossip = DefaultGossipSubParams().HistoryLength, 1
 	case "d2ih":
 		// a per-heartbeat IWANT budget that takes several honoured IHAVEs to use up
 		p.D, p.Dlo, p.Dhi, p.Dscore, p.Dout = 2, 1, 3, 1, 0
